@@ -152,9 +152,16 @@ public:
 				   assert(entry <= catalogs[catalog].size());
 				   if (entry > 0)
 				     return catalogs[catalog][entry-1].start_sector();
-				   if (catalog == catalogs.size()-1)
-				     return root.total_sectors();
-				   return catalogs[catalog+1].back().start_sector();
+				   // The next file on the disc is the last
+				   // entry of the next catalog which has
+				   // any entries (on a Watford DFS disc
+				   // either catalog may be empty).
+				   for (auto c = catalog + 1; c < catalogs.size(); ++c)
+				     {
+				       if (!catalogs[c].empty())
+					 return catalogs[c].back().start_sector();
+				     }
+				   return root.total_sectors();
 				 };
 	std::vector<unsigned int> gaps;
 	auto maybe_gap = [&gaps](DFS::sector_count_type last,
